@@ -109,6 +109,7 @@ def Val.tview : Val → Gen.TView
   | .bool v => .bool v
   | .str s => .string s.isEmpty
   | .html s => .html s.isEmpty
+  | .ptr _ none => .nilPtr
   | _ => .other
 
 /-- `isTruthy` (compiler.go): the generated arms applied to the value's view -/
@@ -146,6 +147,8 @@ def Val.ty : Val → Option Ty
   | .ilist _ => some (.slice .any)
   | .gofn n => some (.named ("func:" ++ n))
   | .opaque t _ => some (.named t)
+  | .struct t _ => some (.named t)
+  | .ptr t _ => some (.named t)
   | .iter .. => some (.named "*iterators.ranger")
   | .giter _ => some (.named "*iterators.groupBy")
   | .userfn .. => some (.named "*plush.userFunction")
@@ -409,6 +412,36 @@ def forgive (cur : Option Nat) : EM Val := do
   modifyS fun st => { st with curStmt := cur }
   pure Val.nil
 
+/-- exported in Go's sense: the name begins with an upper-case ASCII letter (the harness family uses ASCII names) -/
+def isExportedName (name : Bytes) : Bool :=
+  match name with
+  | c :: _ => 65 ≤ c && c ≤ 90
+  | [] => false
+
+/-- one step of member selection in `evalIdentifier` (the `node.Callee != nil` branch), on the value `c` of
+    the callee — a pure function: nil has nil members; a pointer is dereferenced once; anything but a struct has
+    no members; a field that holds a nil pointer is nil, a non-nil pointer field is dereferenced; an unexported
+    field is an error. (The family has no methods and no embedded structs.) -/
+def memberStep (c : Val) (name : Bytes) : R Val :=
+  match c with
+  | .nil => .ok .nil
+  | .opaque _ _ => .fatal (.unsupported "member access on an opaque value")
+  | _ =>
+    let rv : Option Val := match c with
+      | .ptr _ t => t
+      | v => some v
+    match rv with
+    | some (.struct _ fields) =>
+      match lookupKey name fields with
+      | none => .err { kind := "no-field-or-method" }
+      | some (.ptr _ none) => .ok .nil
+      | some (.ptr _ (some t)) => if isExportedName name then .ok t else .err { kind := "unexported-field" }
+      | some f => if isExportedName name then .ok f else .err { kind := "unexported-field" }
+    | _ => .err { kind := "no-field-or-method" }
+
+/-- … as an evaluator action: it never touches the state -/
+def memberOf (c : Val) (name : Bytes) : EM Val := fun s => (memberStep c name, s)
+
 def opStr (opb : Bytes) : String := String.ofList (opb.map fun c => Char.ofNat c.toNat)
 
 mutual
@@ -495,10 +528,7 @@ def evalIdent : Nat → Ident → EM Val
         -- node.Callee != nil: evaluate the callee chain, then select the member
         let calleeSegs := segs.dropLast
         let c ← evalIdent fuel { i with segs := calleeSegs, base := base }
-        match c with
-        | .nil => pure .nil
-        | .opaque _ _ => unsupported "member access on a struct"
-        | _ => fail "no-field-or-method"
+        memberOf c (segs.getLast?.getD [])
 
 /-- `evalInfixExpression` -/
 def evalInfix : Nat → Bytes → Option Expr → Option Expr → EM Val
@@ -626,6 +656,8 @@ def forBody : Nat → Bytes → Bytes → Option Expr → Option Block → EM Va
           forItems fuel key val block es []
       | .iter pos end_ done => forRanger fuel key val block { pos := pos, end_ := end_, done := done } 0 []
       | .giter groups => forItems fuel key val block (groups.zipIdx.map fun (v, i) => (Val.int i, v)) []
+      | .ptr _ (some (.struct ..)) | .ptr _ none => fail "could-not-iterate"
+      | .ptr _ (some _) => unsupported "for over a pointer to a slice, map or scalar (Go dereferences it)"
       | _ => fail "could-not-iterate"
 
 /-- the per-element loop body shared by the three iteration forms -/
